@@ -264,6 +264,12 @@ func (sp *specParser) typeText() (string, error) {
 		case t.kind == "id":
 			b.WriteString(t.text)
 			sp.next()
+			if t.text == "interface" && sp.peek().kind == "op" && sp.peek().text == "{" {
+				sp.next()
+				sp.next()
+				b.WriteString("{}")
+				return b.String(), nil
+			}
 			if n := sp.peek(); !(n.kind == "op" && (n.text == "." || n.text == "[")) {
 				return b.String(), nil
 			}
